@@ -105,7 +105,7 @@ func genC12(rt *rapid.T) core.Scenario {
 		opsKinds := []string{"append", "read", "save", "load"}
 		if sc.Store.Kind == "sqlite" {
 			// additionally: the k-th SQL statement that writes the subscription table fails inside the driver
-			opsKinds = append(opsKinds, "sql-save", "sql-save")
+			opsKinds = append(opsKinds, "sql-save", "sql-save", "sql-load", "sql-load")
 		}
 		f := &C12Fault{Op: rapid.SampledFrom(opsKinds).Draw(rt, "faultOp"), K: rapid.IntRange(0, 8).Draw(rt, "faultK")}
 		if f.Op == "append" || f.Op == "save" {
@@ -156,6 +156,10 @@ func (sc *C12Scenario) Execute(t *testing.T) *core.Outcome {
 		if kind == "sqlite" {
 			if sc.Fault != nil && sc.Fault.Op == "sql-save" {
 				sf.FailSubExecAt = sc.Fault.K + 1
+			}
+			if sc.Fault != nil && sc.Fault.Op == "sql-load" {
+				// the k-th SELECT on the subscription table fails inside the driver: LoadOffset cannot know the position
+				sf.FailSubQueryAt = sc.Fault.K%4 + 1
 			}
 			defer installFaultySQLite(sf)()
 		}
@@ -209,6 +213,7 @@ func (sc *C12Scenario) Execute(t *testing.T) *core.Outcome {
 			if final {
 				fc.plan = FaultPlan{}
 				sf.FailSubExecAt = 0
+				sf.FailSubQueryAt = 0
 			}
 			fc.OnSave = func(id string, off eventbus.Offset) {
 				durable[id] = off
@@ -326,7 +331,7 @@ func (sc *C12Scenario) Execute(t *testing.T) *core.Outcome {
 			}
 		}
 		shortReads = fired["short-read"]
-		if sf.Fired["sql-subscription-write-fails"] > 0 {
+		if sf.Fired["sql-subscription-write-fails"]+sf.Fired["sql-subscription-read-fails"] > 0 {
 			faultFired = true
 		}
 		var err error
